@@ -1487,6 +1487,9 @@ func (w *envelopingWriter) Write(data []byte) (n int, err error) {
 		if w.currentIsTrailer {
 			if err := w.handleTrailer(); err != nil {
 				w.err = err
+				// e.g. a compressed end-of-stream message that exceeds
+				// the buffer limit once it is decompressed
+				w.rw.reportError(err)
 				return written, err
 			}
 			if len(data) == 0 {
